@@ -195,3 +195,15 @@ ra_h!(dir_remove_all_scan, [P_FAIL, P_FAIL, P_OK]);
 fn dir_remove_all_scan_enotempty() {
     remove_all_body_e([P_FAIL, P_FAIL, P_OK], libc::ENOTEMPTY);
 }
+
+// unlink, rmdir and the scan open all answer EACCES (unreadable directory): the
+// error must surface -- success must never be reported for work that was not done
+#[kani::proof]
+#[kani::unwind(8)]
+#[kani::stub(crate::syscalls::unlinkat, k_unlinkat)]
+#[kani::stub(crate::syscalls::openat_follow, k_openat_follow)]
+#[kani::stub(rx::fs::Dir::read_from, k_dir_read_from)]
+#[kani::stub(alloc::fmt::format, k_format)]
+fn dir_remove_all_open_eacces() {
+    remove_all_body_e([P_FAIL, P_FAIL, P_FAIL], libc::EACCES);
+}
